@@ -12,6 +12,7 @@
   * `VarsOK`, `usage … = true` — as in ApiFu/C05/Props.lean.
 -/
 import ApiFu.C05.R.Lemmas
+import ApiFu.C05.R.LemmasSpec
 
 namespace ApiFu.C05.R
 open ApiFu.C05 (Scalar GoVal Lit Parse CV Vars containsVar noDupNames collect collect_lookup_find collect_lookup_mem
@@ -267,5 +268,172 @@ theorem default_routes_field_spec (rec : Ty → CV → Option GoVal) (f : FieldD
     (rest : List FieldDef) (m : List (String × CV)) (hd : f.dflt = some dv) (h : m.lookup f.name = none) :
     Spec.coerceFields rec (f :: rest) m = (Spec.coerceFields rec rest m).map (fun t => (f.name, dv) :: t) := by
   simp [Spec.coerceFields, h, addField, hd]
+
+
+/-! ## coerce_eq_spec / route_agreement over recursive types, hooks and custom scalars -/
+
+/-- **coerce_eq_spec (literal route).** For every environment (recursive input types included),
+    every hook, custom scalars whose literal coercer implements the author's specification `S`:
+    `coerceLiteral` of the literal spelling of a client value is the specification's coercion, fuel
+    for fuel (and neither depends on the fuel beyond the value's object depth: `fuel_irrelevant_*`). -/
+theorem coerce_eq_spec_literal (Pm : Params) (S : Spec.CustomSpec) (cf : String → CV → Bool) (env : Env)
+    (hh : HookOK Pm) (hc : CoercersAgree Pm S cf) (fuel : Nat) (T : Ty) (v : CV) (hw : v.wf = true) :
+    coerceLit Pm env [] fuel T v.toLit true = Spec.coerce Pm S env fuel T v := by
+  have hS : NonNil S := by
+    intro n w x hx
+    rw [← hc.1 n w] at hx
+    exact (notNil_some hx).2
+  have := coerceLitT_eq_spec Pm S hc.1 (fun n l => coerceLitObj Pm env [] fuel n l)
+    (fun n m => Spec.coerceObj Pm S env fuel n m)
+    (fun n m h1 h2 => coerceLitObj_eq_spec Pm S env hh hS hc.1 fuel n m h1 h2) T v true hw
+  simpa [coerceLit, Spec.coerce] using this
+
+/-- **coerce_eq_spec (variable route)** on JSON-faithful client values. -/
+theorem coerce_eq_spec_variable (Pm : Params) (S : Spec.CustomSpec) (cf : String → CV → Bool) (env : Env)
+    (hc : CoercersAgree Pm S cf) (fuel : Nat) (T : Ty) (v : CV) (hw : v.wf = true)
+    (hf : jsonFaithful cf env fuel T v = true) :
+    coerceVar Pm env fuel T (toIn v) true = Spec.coerce Pm S env fuel T v := by
+  have := coerceVarT_eq_spec Pm S cf hc.2 (fun n m => coerceVarObj Pm env fuel n m)
+    (fun n m => Spec.coerceObj Pm S env fuel n m) (fun n m => faithfulObj cf env fuel n m)
+    (fun n m h1 h2 => coerceVarObj_eq_spec Pm S cf env hc.2 fuel n m h1 h2) T v true hw hf
+  simpa [coerceVar, Spec.coerce] using this
+
+/-- **route_agreement.** Literal route = variable route on every JSON-faithful client value, for
+    recursive input types, hooked types (the hook sees the same field map on both routes) and custom
+    scalars whose two coercers implement one specification. -/
+theorem route_agreement (Pm : Params) (S : Spec.CustomSpec) (cf : String → CV → Bool) (env : Env)
+    (hh : HookOK Pm) (hc : CoercersAgree Pm S cf) (fuel : Nat) (T : Ty) (v : CV) (hw : v.wf = true)
+    (hf : jsonFaithful cf env fuel T v = true) :
+    coerceLit Pm env [] fuel T v.toLit true = coerceVar Pm env fuel T (toIn v) true := by
+  rw [coerce_eq_spec_literal Pm S cf env hh hc fuel T v hw, coerce_eq_spec_variable Pm S cf env hc fuel T v hw hf]
+
+/-! ## Fuel -/
+
+/-- **fuel_irrelevant (variable route).** Once the fuel reaches the object nesting depth of the
+    value the result no longer depends on it: a `none` obtained with that much fuel is a coercion
+    error, never "out of fuel" (the driver runs every request with more). -/
+theorem fuel_irrelevant_variable (Pm : Params) (env : Env) (f f' : Nat) (T : Ty) (v : In) (allow : Bool)
+    (h : v.depth ≤ f) (h' : v.depth ≤ f') : coerceVar Pm env f T v allow = coerceVar Pm env f' T v allow :=
+  coerceVar_fuel Pm env f f' T v allow h h'
+
+/-- **fuel_irrelevant (literal route).** -/
+theorem fuel_irrelevant_literal (Pm : Params) (env : Env) (vars : Vars) (f f' : Nat) (T : Ty) (l : Lit)
+    (allow : Bool) (h : litDepth l ≤ f) (h' : litDepth l ≤ f') :
+    coerceLit Pm env vars f T l allow = coerceLit Pm env vars f' T l allow :=
+  coerceLit_fuel Pm env vars f f' T l allow h h'
+
+/-! ## Go kinds -/
+
+/-- The client value a Go number / byte slice stands for (an integral float is the integer, as in
+    JSON). -/
+def denoted : In → Option CV
+  | .intk _ z => some (.int z)
+  | .num h => some (if h % 2 = 0 then .int (h / 2) else .half h)
+  | .f32 h => some (if h % 2 = 0 then .int (h / 2) else .half h)
+  | .str s => some (.str s)
+  | .bytes s => some (.str s)
+  | .bool b => some (.bool b)
+  | _ => none
+
+/-- **go_kinds_sound.** Whatever Go kind a caller puts into `Request.VariableValues`, a built-in
+    scalar either refuses it or coerces it to exactly what the specification gives for the client
+    value it stands for (no wrap-around, no truncation: `uint64(2^64−1)` is not `-1`, `int64(2^40)`
+    is not an `Int`); `json.Number`, non-finite floats and every opaque Go value are refused. (Most
+    sized kinds are refused by `ID`, `[]byte` by everything but `DateTime` — refusing is allowed;
+    apifu's own transports only produce the JSON kinds, for which `route_agreement` is exact.) -/
+theorem go_kinds_sound (P : Parse) (k : Scalar) (v : In) (x : GoVal) (hw : v.wf = true)
+    (h : scalarVar P k v = some x) :
+    ∃ cv, denoted v = some cv ∧ ApiFu.C05.Spec.scalar P k cv = some x := by
+  have even : ∀ z : Int, z % 2 = 0 → 2 * (z / 2) = z := by intro z hz; omega
+  -- an integral float stands for the integer
+  have viaHalf : ∀ (hh : Int) (c : Int → Bool) (mk : Int → GoVal),
+      (if hh % 2 = 0 && c (hh / 2) then some (mk (hh / 2)) else none) = some x →
+      hh % 2 = 0 ∧ c (hh / 2) = true ∧ mk (hh / 2) = x := by
+    intro hh c mk hx
+    split at hx
+    · rename_i hc; simp only [Bool.and_eq_true, decide_eq_true_eq] at hc; exact ⟨hc.1, hc.2, by simpa using hx⟩
+    · simp at hx
+  cases k <;> cases v <;> simp only [scalarVar] at h <;> try (simp at h; done)
+  case int.num hh =>
+    obtain ⟨h1, h2, rfl⟩ := viaHalf hh _ _ h
+    exact ⟨_, rfl, by simp [ApiFu.C05.Spec.scalar, h1, h2]⟩
+  case int.f32 hh =>
+    obtain ⟨h1, h2, rfl⟩ := viaHalf hh _ _ h
+    exact ⟨_, rfl, by simp [ApiFu.C05.Spec.scalar, h1, h2]⟩
+  case int.intk kd z =>
+    split at h
+    · rename_i hc; simp at h; subst h; exact ⟨_, rfl, by simp [ApiFu.C05.Spec.scalar, hc]⟩
+    · simp at h
+  case float.num hh =>
+    simp at h; subst h
+    refine ⟨_, rfl, ?_⟩
+    by_cases hz : hh % 2 = 0 <;> simp [ApiFu.C05.Spec.scalar, hz, even]
+  case float.f32 hh =>
+    simp at h; subst h
+    refine ⟨_, rfl, ?_⟩
+    by_cases hz : hh % 2 = 0 <;> simp [ApiFu.C05.Spec.scalar, hz, even]
+  case float.intk kd z => simp at h; subst h; exact ⟨_, rfl, by simp [ApiFu.C05.Spec.scalar]⟩
+  case string.str s => simp at h; subst h; exact ⟨_, rfl, by simp [ApiFu.C05.Spec.scalar]⟩
+  case boolean.bool b => simp at h; subst h; exact ⟨_, rfl, by simp [ApiFu.C05.Spec.scalar]⟩
+  case id.num hh =>
+    obtain ⟨h1, h2, rfl⟩ := viaHalf hh _ _ h
+    exact ⟨_, rfl, by simp [ApiFu.C05.Spec.scalar, h1, h2]⟩
+  case id.intk kd z =>
+    cases kd <;> simp at h
+    subst h
+    refine ⟨_, rfl, ?_⟩
+    simp only [In.wf, IntKind.lo, IntKind.hi, Bool.and_eq_true] at hw
+    have a := of_decide_eq_true hw.1
+    have b := of_decide_eq_true hw.2
+    have : ApiFu.C05.inInt64 z = true := by
+      simp only [ApiFu.C05.inInt64, ApiFu.C05.minInt64, ApiFu.C05.maxInt64, Bool.and_eq_true]
+      constructor <;> (apply decide_eq_true; omega)
+    simp [ApiFu.C05.Spec.scalar, this]
+  case id.str s => simp at h; subst h; exact ⟨_, rfl, by simp [ApiFu.C05.Spec.scalar]⟩
+  case dateTime.str s => exact ⟨_, rfl, by simpa [ApiFu.C05.Spec.scalar] using h⟩
+  case dateTime.bytes s => exact ⟨_, rfl, by simpa [ApiFu.C05.Spec.scalar] using h⟩
+  case longInt.num hh =>
+    obtain ⟨h1, h2, rfl⟩ := viaHalf hh _ _ h
+    exact ⟨_, rfl, by simp [ApiFu.C05.Spec.scalar, h1, h2]⟩
+  case longInt.f32 hh =>
+    obtain ⟨h1, h2, rfl⟩ := viaHalf hh _ _ h
+    exact ⟨_, rfl, by simp [ApiFu.C05.Spec.scalar, h1, h2]⟩
+  case longInt.intk kd z =>
+    split at h
+    · rename_i hc; simp at h; subst h; exact ⟨_, rfl, by simp [ApiFu.C05.Spec.scalar, hc]⟩
+    · simp at h
+
+/-! ## Non-vacuity: a recursive type, a hook, Go kinds -/
+
+/-- `input In { c: [In], e: In, x: Int! = 5 }` with a hook on `H { y: Int }`. -/
+def exEnv : Env :=
+  [("In", { fields := [{ name := "c", ty := .list (.ref "In"), dflt := none },
+                       { name := "e", ty := .ref "In", dflt := none },
+                       { name := "x", ty := .nonNull (.scalar .int), dflt := some (.int 5) }], hooked := false }),
+   ("H", { fields := [{ name := "y", ty := .scalar .int, dflt := none }], hooked := true })]
+
+def exParams : Params :=
+  { parse := fun _ => none,
+    hook := fun n m => if m.any (fun p => p.1 == "y" && p.2.isNil) then none else some (.obj [("$fields", .obj m), ("$hook", .str n)]),
+    customLit := fun _ _ => none, customVar := fun _ _ => none }
+
+-- a value nested three objects deep, a single object for the list `c`, a uint8 for `x`
+example : coerceVar exParams exEnv 3 (.ref "In")
+    (.obj [("e", .obj [("x", .intk .u8 7), ("e", .obj [])]), ("c", .obj [])]) true
+    = some (.obj [("c", .list [.obj [("x", .int 5)]]),
+                  ("e", .obj [("e", .obj [("x", .int 5)]), ("x", .int 7)]), ("x", .int 5)]) := by rfl
+-- … the same with more fuel; with too little the driver would say so (it never runs below the depth)
+example : coerceVar exParams exEnv 9 (.ref "In") (.obj [("e", .obj [("x", .intk .u8 7), ("e", .obj [])]), ("c", .obj [])]) true
+    = coerceVar exParams exEnv 3 (.ref "In") (.obj [("e", .obj [("x", .intk .u8 7), ("e", .obj [])]), ("c", .obj [])]) true := by rfl
+-- the hook's result is the value; the hook's error is a coercion error
+example : coerceLit exParams exEnv [] 1 (.ref "H") (.obj [("y", .int 2)]) true
+    = some (.obj [("$fields", .obj [("y", .int 2)]), ("$hook", .str "H")]) := by rfl
+example : coerceLit exParams exEnv [] 1 (.ref "H") (.obj [("y", .null)]) true = none := by rfl
+-- Go kinds: no wrap-around, no truncation
+example : scalarVar (fun _ => none) .int (.intk .u64 18446744073709551615) = none := by rfl
+example : scalarVar (fun _ => none) .longInt (.intk .u64 9007199254740992) = none := by rfl
+example : scalarVar (fun _ => none) .float (.intk .i64 (-3)) = some (.float (-6)) := by rfl
+example : scalarVar (fun _ => none) .id (.intk .i32 3) = none := by rfl
+example : scalarVar (fun _ => none) .string (.jsonNumber "1") = none := by rfl
 
 end ApiFu.C05.R
